@@ -12,7 +12,7 @@ EXPLANATION = (
     "every overflow/bounds assertion and every panicking call (slice indexing, unwrap) is auto-discharged (type invariant len>=1, dominating comparison, range-bounded index, index arithmetic) "
     "or listed in a reviewed table with its reason; anything else is a reachable panic. C11.2 raw reads through a pointer taken from a &str/&[u8] (not NUL-terminated by type) are dominated by a comparison with that slice's length "
     "(reads through a UnixStr pointer are covered by the terminator invariant, C10). C11.3 the needle `find` hands to the searcher is the string without its terminator: the slice ends at len-1 (sibling find_buf passes the caller's bytes unchanged), "
-    "and an empty needle never reaches an index. C11.4 split points: path_file_name returns the suffix starting one past the separator it found, under the guard that something follows; parent_path cuts before the separator (C10 checks the terminator). "
+    "an empty needle never reaches an index, and the search is skipped (None) only for a needle LONGER than the haystack. C11.4 split points: path_file_name returns the suffix starting one past the separator it found, under the guard that something follows; parent_path cuts before the separator (C10 checks the terminator). "
     "C11.6 separator accounting in path_join / path_join_fmt: on every path that appends the extension, (base ends with '/') + (extension starts with '/') + ('/' pushed) - (leading '/' skipped) == 1 with both facts tested on that path, and the extension is appended once. "
     "C11.7 ends_with answers true only after the needle's first byte was compared (dominating `needle index == 0`, exhausted needle, or a counting loop whose last round compares index 0). "
     "NOT decided: agreement of the results with the byte-string definitions for all operand pairs (first occurrence, suffix test, prefix length) - value-level.")
